@@ -18,6 +18,8 @@ rbag = z3.Function("rbag", ISeq, IntS, IntS, Bag)           # bag of a[lo:hi]
 rtot = z3.Function("rtot", ISeq, IntS, IntS, RealS)         # total value of a[lo:hi]
 btot = z3.Function("btot", Bag, RealS)                      # total value of a (finite) bag
 bcard = z3.Function("bcard", Bag, IntS)                     # cardinality of a (finite) bag
+rank = z3.Function("rank", Item, IntS)                      # the items' OWN order (names compare among themselves), unrelated to val; injective
+istype = z3.Function("istype", Item, IntS, BoolS)           # isinstance(item, T) for the type with code T: an unknown predicate on items
 EMPTY = z3.K(Item, z3.IntVal(0))
 
 _counter = [0]
